@@ -163,6 +163,8 @@ class Unit:
         for did in aliases:
             tr.request(did)
         tr.run()
+        if hasattr(tr, "compute_may_throw"):
+            tr.compute_may_throw()
         for m in self.mspecs.values():
             if not m.is_lemma and m.name not in tr.funcs:
                 raise ExtractionBreak("math spec for '%s' but no such extracted function" % m.name)
@@ -244,13 +246,19 @@ class Unit:
                     out.append("__CPROVER_requires(__CPROVER_r_ok(%s, %s))" % (pn, sz))
         for r in spec.requires:
             out.append("__CPROVER_requires(%s)" % c_expr(S(r)))
-        for lab, e in spec.ensures.items():
+        # is_fresh clauses first: when a contract is used to REPLACE a call, an is_fresh ensures assigns the pointer,
+        # so facts relating that pointer to other state must be assumed after it
+        ens = sorted(spec.ensures.items(), key=lambda kv: 0 if "__CPROVER_is_fresh" in kv[1] else 1)
+        for lab, e in ens:
             lines.append((len(out), lab))
             out.append("__CPROVER_ensures(%s)" % c_expr(S(e)))
         if spec.assigns is not None:
-            out.append("__CPROVER_assigns(%s)" % ", ".join(S(x) for x in spec.assigns))
+            asg = [S(x) for x in spec.assigns]
+            if f is not None and getattr(self.tr, "may_throw", {}).get(f.cname) and "__verif_exc" not in asg:
+                asg.append("__verif_exc")
+            out.append("__CPROVER_assigns(%s)" % ", ".join(asg))
         if spec.frees is not None:
-            out.append("__CPROVER_frees(%s)" % ", ".join(spec.frees))
+            out.append("__CPROVER_frees(%s)" % ", ".join(S(x) for x in spec.frees))
         return out
 
     def is_cxx_ref(self, f, pn):
@@ -309,7 +317,13 @@ class Unit:
                 n = spec.arrays.get(pn)
                 et = pt.to
                 if et.kind == "builtin" and et.name == "void":
-                    raise ExtractionBreak("auto harness: void* parameter %s of %s" % (pn, f.cname))
+                    # untyped memory: null, or a heap block of symbolic length
+                    L.append("  _Bool in_%s_isnull = nondet__Bool(); unsigned long in_%s_len = nondet_unsigned_long(); __CPROVER_assume(in_%s_len <= %d);" % (pn, pn, pn, spec.extra.get("max_bytes", 1000000)))
+                    L.append("  void *p_%s = in_%s_isnull ? (void *)0 : verif_malloc(in_%s_len);" % (pn, pn, pn))
+                    inputs.append(dict(name="in_%s_isnull" % pn, ctype="_Bool"))
+                    inputs.append(dict(name="in_%s_len" % pn, ctype="unsigned long"))
+                    call_args.append("p_" + pn)
+                    continue
                 oname = "o_" + pn
                 if n is None:
                     L.append("  %s;" % tr.cdecl(et, oname))
@@ -364,8 +378,11 @@ class Unit:
         for (nm, (lo, hi)) in spec.in_ranges.items():
             L.append("  __CPROVER_assume(%s >= %s && %s <= %s);" % (nm, lo, nm, hi))
         L.append("  verif_lib_anchor();")
+        L.append("  __verif_exc = 0;")
+        names = [n for (n, _) in f.params]
+        AT = lambda t: re.sub(r"@(\d+)", lambda m: names[int(m.group(1))], t)
         if spec.pre_call:
-            L.append(spec.pre_call)
+            L.append(AT(spec.pre_call))
         rt = f.ret
         call = "%s(%s)" % (f.cname, ", ".join(call_args))
         if rt.kind == "builtin" and rt.name == "void":
@@ -373,7 +390,7 @@ class Unit:
         else:
             L.append("  %s = %s;" % (tr.cdecl(rt, "ret"), call))
         if spec.post_call:
-            L.append(spec.post_call)
+            L.append(AT(spec.post_call))
         L.append("  __CPROVER_assert(0, \"VERIF_CANARY reachable end of harness\");")
         txt = "void h_%s(void)\n{\n%s\n}\n" % (f.cname, "\n".join(L))
         return txt, inputs
@@ -438,7 +455,23 @@ class Unit:
                 text = tr.function_text(f, static=False)
                 fn_texts.append((n, text))
             protos.append(tr.signature(f) + ";")
-        head = "".join(parts) + tr.records_text() + "\n".join(tr.globals.values()) + "\n" + self.stubs + "\n" + self.helpers + "\n" + "\n".join(protos) + "\n"
+        exc_defs = "".join("#define EXC_%s %d\n" % (cxx2c.sanitize(c), k) for c, k in getattr(tr, "exc_classes", {}).items())
+        std_text = ""
+        std_contracts = ""
+        stdl = getattr(tr, "stdlib", None)
+        if stdl is not None:
+            std_text = "".join(stdl.text.values())
+            used = set()
+            for n in order:
+                f = tr.funcs.get(n)
+                if f is not None and n not in replaced:
+                    used.update(c for c in f.calls if c in stdl.contracts)
+            # (model helper texts may call contract functions too; declare all that exist)
+            for cn, decl in stdl.contracts.items():
+                std_contracts += decl + ";\n"
+                if cn in used:
+                    replaced.append(cn)
+        head = "".join(parts) + exc_defs + tr.records_text() + "\n".join(tr.globals.values()) + "\n" + "\n".join(protos) + "\n" + std_contracts + std_text + "\n" + self.stubs + "\n" + self.helpers + "\n"
         text = head
         for n, t in fn_texts:
             start = text.count("\n") + 1
@@ -500,6 +533,7 @@ class Unit:
                 L.append("  %s %s = nondet_%s(); %s = %s;" % (c, iname, cxx2c.sanitize(c), path, iname))
                 inputs.append(dict(name=iname, ctype=c, path=path))
         L.append("  verif_lib_anchor();")
+        L.append("  __verif_exc = 0;")
         for r in lem.requires:
             L.append("  __CPROVER_assume(%s);" % r)
         body = lem.body
